@@ -18,6 +18,7 @@ import (
 	"context"
 	"encoding/json"
 	"fmt"
+	"io"
 	"os"
 	"os/exec"
 	"reflect"
@@ -110,28 +111,42 @@ type auxScanner struct {
 
 // prefLogger is the container logger of this driver, installed through syslog.SetLogger: it prints nothing and
 // remembers the prefixes it was derived with, so that the logger a `logger` point received tells the prefix the
-// container asked for (syslog.Pref(p) = root.Pref(p), cached per prefix).  Panic / Fatal do nothing, like the
-// library's own logger under hx.Quiet() as far as outcomes go (Panic is below LvFatal there).
-type prefLogger struct{ prefs []string }
+// container asked for (syslog.Pref(p) = root.Pref(p), cached per prefix).  Panic / Fatal do not panic, like the
+// library's own logger under hx.Quiet() as far as outcomes go (Panic is below LvFatal there).  loud (the input's
+// `verbose` flag): every message is really formatted (into io.Discard), as under a debug / trace log level.
+type prefLogger struct {
+	prefs []string
+	loud  bool
+}
 
 func (l *prefLogger) Level(syslog.Lv) syslog.Logger { return l }
 func (l *prefLogger) Pref(p any) syslog.Logger {
-	return &prefLogger{prefs: append(append([]string(nil), l.prefs...), fmt.Sprint(p))}
+	return &prefLogger{prefs: append(append([]string(nil), l.prefs...), fmt.Sprint(p)), loud: l.loud}
 }
-func (*prefLogger) Trace(...any)          {}
-func (*prefLogger) Tracef(string, ...any) {}
-func (*prefLogger) Debug(...any)          {}
-func (*prefLogger) Debugf(string, ...any) {}
-func (*prefLogger) Info(...any)           {}
-func (*prefLogger) Infof(string, ...any)  {}
-func (*prefLogger) Warn(...any)           {}
-func (*prefLogger) Warnf(string, ...any)  {}
-func (*prefLogger) Error(...any)          {}
-func (*prefLogger) Errorf(string, ...any) {}
-func (*prefLogger) Panic(...any)          {}
-func (*prefLogger) Panicf(string, ...any) {}
-func (*prefLogger) Fatal(...any)          {}
-func (*prefLogger) Fatalf(string, ...any) {}
+func (l *prefLogger) ln(v ...any) {
+	if l.loud {
+		_, _ = fmt.Fprintln(io.Discard, v...)
+	}
+}
+func (l *prefLogger) f(format string, v ...any) {
+	if l.loud {
+		_, _ = fmt.Fprintf(io.Discard, format, v...)
+	}
+}
+func (l *prefLogger) Trace(v ...any)            { l.ln(v...) }
+func (l *prefLogger) Tracef(f string, v ...any) { l.f(f, v...) }
+func (l *prefLogger) Debug(v ...any)            { l.ln(v...) }
+func (l *prefLogger) Debugf(f string, v ...any) { l.f(f, v...) }
+func (l *prefLogger) Info(v ...any)             { l.ln(v...) }
+func (l *prefLogger) Infof(f string, v ...any)  { l.f(f, v...) }
+func (l *prefLogger) Warn(v ...any)             { l.ln(v...) }
+func (l *prefLogger) Warnf(f string, v ...any)  { l.f(f, v...) }
+func (l *prefLogger) Error(v ...any)            { l.ln(v...) }
+func (l *prefLogger) Errorf(f string, v ...any) { l.f(f, v...) }
+func (l *prefLogger) Panic(v ...any)            { l.ln(v...) }
+func (l *prefLogger) Panicf(f string, v ...any) { l.f(f, v...) }
+func (l *prefLogger) Fatal(v ...any)            { l.ln(v...) }
+func (l *prefLogger) Fatalf(f string, v ...any) { l.f(f, v...) }
 
 var loggerType = reflect.TypeOf((*syslog.Logger)(nil)).Elem()
 
@@ -505,9 +520,9 @@ func runChunk(cases []Case) []Out {
 
 func main() {
 	hx.Quiet()
-	syslog.SetLogger(&prefLogger{})
 	var in Input
-	hx.ReadInput(&in)
+	hx.ReadInput(&in) // the input's `verbose` flag (inherited by the child processes) selects the formatting logger
+	syslog.SetLogger(&prefLogger{loud: hx.IsVerbose()})
 	if os.Getenv("VERIF_C11_CHILD") == "1" {
 		outs := make([]Out, 0, len(in.Cases))
 		for _, c := range in.Cases {
